@@ -290,7 +290,7 @@ func init() {
 						spy.mu.Unlock()
 						// failpoint (verif hook of net/udp): the kernel transmit timestamp of the request is not
 						// delivered within the client's poll timeout; the client falls back on a clock reading
-						lateTX := seq%6 == 5 && call%3 == 1
+						lateTX := seq%3 == 2 && call%2 == 1
 						if lateTX {
 							udp.VerifLateTXTimestamps(1)
 							r.Class(name + ":kernel transmit timestamp of the request not delivered in time")
